@@ -61,145 +61,148 @@ func engineAnyu(rep *Report) {
 		rep.Types = append(rep.Types, tn)
 		d := s.Zero.ProtoReflect().Descriptor()
 		for i := 0; i < n; i++ {
-			seed := caseSeed(*flagSeed, tn, i, "anyu")
-			o := defaultGen()
-			o.NoSNaN = true
-			g := NewGen(seed, o)
-			r := rand.New(rand.NewSource(seed))
-			v := g.Msg(d, 0)
-			m := BuildStruct(s.Zero, v)
-			want := SpecEncode(Canon(v))
-			rc := replayCase{Engine: "anyu", Type: tn, Seed: *flagSeed, Index: i, Value: hx(want)}
-			rep.Eval("C16", append([]byte(tn), want...), true)
-			if i == 0 && si == 0 {
-				rep.Sample("C16", map[string]string{"type": tn, "value_hex": hx(want)})
-			}
-			// ---- pack
-			var a *anypb.Any
-			var err error
-			usePack := i % 3
-			pan, pmsg := safely(func() {
-				switch usePack {
-				case 0:
-					a, err = anyutil.New(m)
-				case 1:
-					a = &anypb.Any{TypeUrl: "sentinel", Value: []byte("sentinel")}
-					err = anyutil.MarshalFrom(a, m, proto.MarshalOptions{Deterministic: true})
-				case 2:
-					a, err = legacyany.New(m)
+			i := i
+			guardCase(rep, "C16", "anyu", tn, i, func() {
+				seed := caseSeed(*flagSeed, tn, i, "anyu")
+				o := defaultGen()
+				o.NoSNaN = true
+				g := NewGen(seed, o)
+				r := rand.New(rand.NewSource(seed))
+				v := g.Msg(d, 0)
+				m := BuildStruct(s.Zero, v)
+				want := SpecEncode(Canon(v))
+				rc := replayCase{Engine: "anyu", Type: tn, Seed: *flagSeed, Index: i, Value: hx(want)}
+				rep.Eval("C16", append([]byte(tn), want...), true)
+				if i == 0 && si == 0 {
+					rep.Sample("C16", map[string]string{"type": tn, "value_hex": hx(want)})
+				}
+				// ---- pack
+				var a *anypb.Any
+				var err error
+				usePack := i % 3
+				pan, pmsg := safely(func() {
+					switch usePack {
+					case 0:
+						a, err = anyutil.New(m)
+					case 1:
+						a = &anypb.Any{TypeUrl: "sentinel", Value: []byte("sentinel")}
+						err = anyutil.MarshalFrom(a, m, proto.MarshalOptions{Deterministic: true})
+					case 2:
+						a, err = legacyany.New(m)
+					}
+				})
+				if pan || err != nil {
+					rep.Violate("C16", "anyu/pack-fails", tn, fmt.Sprintf("packing a valid message: err=%v %s", err, pmsg), rc)
+					return
+				}
+				if a.TypeUrl != "/"+tn {
+					rep.Violate("C16", "anyu/type-url", tn, fmt.Sprintf("type URL %q, want %q", a.TypeUrl, "/"+tn), rc)
+				}
+				// value is m's encoding under the given options
+				if usePack == 1 {
+					if !bytes.Equal(a.Value, want) {
+						rep.Violate("C16", "anyu/value", tn, "MarshalFrom(Deterministic) value differs from the deterministic encoding: "+firstDiff(a.Value, want), rc)
+					}
+				} else if dec, e := SpecDecode(d, a.Value, SpecOpts{}); e != nil || !bytes.Equal(SpecEncode(Canon(dec)), want) {
+					rep.Violate("C16", "anyu/value", tn, "packed value is not an encoding of the message", rc)
+				}
+				// ---- unpack through the type registry
+				var u1, u2, u3 proto.Message
+				var e1, e2, e3 error
+				pan, pmsg = safely(func() { u1, e1 = anyutil.Unpack(a, nil, nil) })
+				if pan || e1 != nil {
+					rep.Violate("C16", "anyu/unpack-registry-fails", tn, fmt.Sprintf("err=%v %s", e1, pmsg), rc)
+				} else if !bytes.Equal(canonOf(u1), want) {
+					rep.Violate("C16", "anyu/unpack-registry-differs", tn, "unpacked message differs: "+firstDiff(canonOf(u1), want), rc)
+				} else if u1.ProtoReflect().Descriptor().FullName() != d.FullName() {
+					rep.Violate("C16", "anyu/unpack-registry-type", tn, "wrong type", rc)
+				}
+				// ---- unpack through the file registry (type registry without the type)
+				pan, pmsg = safely(func() { u2, e2 = anyutil.Unpack(a, nil, emptyTypes) })
+				if pan || e2 != nil {
+					rep.Violate("C16", "anyu/unpack-files-fails", tn, fmt.Sprintf("err=%v %s", e2, pmsg), rc)
+				} else {
+					if _, ok := u2.(*dynamicpb.Message); !ok {
+						rep.Violate("C16", "anyu/unpack-files-not-dynamic", tn, fmt.Sprintf("got %T", u2), rc)
+					}
+					if !bytes.Equal(canonOf(u2), want) {
+						rep.Violate("C16", "anyu/unpack-files-differs", tn, "file-registry path differs from the message: "+firstDiff(canonOf(u2), want), rc)
+					}
+				}
+				// custom files registry with the file
+				pan, pmsg = safely(func() { u3, e3 = anyutil.Unpack(a, filesWith(d.ParentFile()), emptyTypes) })
+				if pan || e3 != nil {
+					rep.Violate("C16", "anyu/unpack-customfiles-fails", tn, fmt.Sprintf("err=%v %s", e3, pmsg), rc)
+				} else if !bytes.Equal(canonOf(u3), want) {
+					rep.Violate("C16", "anyu/unpack-customfiles-differs", tn, "custom file registry path differs", rc)
+				}
+				rep.Count("C16", "pack-unpack-roundtrips", 1)
+
+				// ---- hostile Any values / resolver combinations: error, never panic
+				hostile := []*anypb.Any{
+					{TypeUrl: "", Value: a.Value},
+					{TypeUrl: "/", Value: a.Value},
+					{TypeUrl: tn, Value: a.Value},                          // no slash
+					{TypeUrl: "type.googleapis.com/" + tn, Value: a.Value}, // host prefix: resolvable through the type registry
+					{TypeUrl: "/" + tn + ".nope", Value: a.Value},
+					{TypeUrl: "/no.such.Type", Value: a.Value},
+					{TypeUrl: "/" + tn, Value: append(append([]byte{}, a.Value...), 0xff)}, // corrupt tail
+					{TypeUrl: "/" + tn, Value: []byte{0x0a, 0xff, 0xff, 0xff, 0xff, 0x0f}},
+					{TypeUrl: "/" + tn, Value: []byte{0xc0, 0x3e, 0x80}},                   // unknown varint field, value truncated
+					{TypeUrl: "/" + tn, Value: []byte{0xc1, 0x3e, 1, 2, 3}},                // unknown fixed64 truncated
+					{TypeUrl: "/" + tn, Value: []byte{0xc2, 0x3e, 0x05, 1}},                // unknown bytes truncated
+					{TypeUrl: "/" + tn, Value: []byte{0xc3, 0x3e, 0xc2, 0x3e, 0x7f}},       // unknown group, unterminated
+					{TypeUrl: "/" + tn, Value: []byte{0xc5, 0x3e, 1}},                      // unknown fixed32 truncated
+					{TypeUrl: "/" + tn, Value: append(append([]byte{}, a.Value...), 0x80)}, // dangling tag byte
+					{TypeUrl: "//" + tn, Value: a.Value},
+					{TypeUrl: "/\x00\xff", Value: nil},
+					{TypeUrl: "/google.protobuf.Any", Value: a.Value},
+				}
+				// names of non-message descriptors: enums, services, fields, enum values, oneofs
+				f := d.ParentFile()
+				if f.Enums().Len() > 0 {
+					hostile = append(hostile, &anypb.Any{TypeUrl: "/" + string(f.Enums().Get(0).FullName()), Value: a.Value})
+					hostile = append(hostile, &anypb.Any{TypeUrl: "/" + string(f.Enums().Get(0).Values().Get(0).FullName()), Value: nil})
+				}
+				if f.Services().Len() > 0 {
+					hostile = append(hostile, &anypb.Any{TypeUrl: "/" + string(f.Services().Get(0).FullName()), Value: a.Value})
+					hostile = append(hostile, &anypb.Any{TypeUrl: "/" + string(f.Services().Get(0).Methods().Get(0).FullName()), Value: a.Value})
+				}
+				if d.Fields().Len() > 0 {
+					hostile = append(hostile, &anypb.Any{TypeUrl: "/" + string(d.Fields().Get(0).FullName()), Value: a.Value})
+				}
+				if d.Oneofs().Len() > 0 {
+					hostile = append(hostile, &anypb.Any{TypeUrl: "/" + string(d.Oneofs().Get(0).FullName()), Value: a.Value})
+				}
+				hostile = append(hostile, &anypb.Any{TypeUrl: "/google.protobuf.NullValue", Value: nil}, &anypb.Any{TypeUrl: "/google.protobuf.FieldDescriptorProto.Type", Value: []byte{1}})
+				type resolvers struct {
+					name string
+					f    protodesc.Resolver
+					t    protoregistry.MessageTypeResolver
+				}
+				rs := []resolvers{
+					{"default", nil, nil},
+					{"empty-types", nil, emptyTypes},
+					{"custom-files+empty-types", filesWith(f), emptyTypes},
+					{"empty-files+empty-types", new(protoregistry.Files), emptyTypes},
+				}
+				h := hostile[r.Intn(len(hostile))]
+				if i < len(hostile) {
+					h = hostile[i]
+				}
+				for _, rv := range rs {
+					var um proto.Message
+					var ue error
+					pan, pmsg = safely(func() { um, ue = anyutil.Unpack(h, rv.f, rv.t) })
+					rep.Count("C16", "hostile-unpacks", 1)
+					rep.Eval("C16", []byte("hostile|"+rv.name+"|"+h.TypeUrl+"|"+string(h.Value)), true)
+					if pan {
+						rep.Violate("C16", "anyu/unpack-panics", tn, fmt.Sprintf("Unpack(url=%q, resolvers=%s) panics: %s", h.TypeUrl, rv.name, pmsg), map[string]interface{}{"engine": "anyu", "type": tn, "index": i, "seed": *flagSeed, "url": h.TypeUrl, "resolvers": rv.name})
+					} else if ue == nil && um == nil {
+						rep.Violate("C16", "anyu/unpack-nil-nil", tn, fmt.Sprintf("Unpack(url=%q, %s) returned neither message nor error", h.TypeUrl, rv.name), rc)
+					}
 				}
 			})
-			if pan || err != nil {
-				rep.Violate("C16", "anyu/pack-fails", tn, fmt.Sprintf("packing a valid message: err=%v %s", err, pmsg), rc)
-				continue
-			}
-			if a.TypeUrl != "/"+tn {
-				rep.Violate("C16", "anyu/type-url", tn, fmt.Sprintf("type URL %q, want %q", a.TypeUrl, "/"+tn), rc)
-			}
-			// value is m's encoding under the given options
-			if usePack == 1 {
-				if !bytes.Equal(a.Value, want) {
-					rep.Violate("C16", "anyu/value", tn, "MarshalFrom(Deterministic) value differs from the deterministic encoding: "+firstDiff(a.Value, want), rc)
-				}
-			} else if dec, e := SpecDecode(d, a.Value, SpecOpts{}); e != nil || !bytes.Equal(SpecEncode(Canon(dec)), want) {
-				rep.Violate("C16", "anyu/value", tn, "packed value is not an encoding of the message", rc)
-			}
-			// ---- unpack through the type registry
-			var u1, u2, u3 proto.Message
-			var e1, e2, e3 error
-			pan, pmsg = safely(func() { u1, e1 = anyutil.Unpack(a, nil, nil) })
-			if pan || e1 != nil {
-				rep.Violate("C16", "anyu/unpack-registry-fails", tn, fmt.Sprintf("err=%v %s", e1, pmsg), rc)
-			} else if !bytes.Equal(canonOf(u1), want) {
-				rep.Violate("C16", "anyu/unpack-registry-differs", tn, "unpacked message differs: "+firstDiff(canonOf(u1), want), rc)
-			} else if u1.ProtoReflect().Descriptor().FullName() != d.FullName() {
-				rep.Violate("C16", "anyu/unpack-registry-type", tn, "wrong type", rc)
-			}
-			// ---- unpack through the file registry (type registry without the type)
-			pan, pmsg = safely(func() { u2, e2 = anyutil.Unpack(a, nil, emptyTypes) })
-			if pan || e2 != nil {
-				rep.Violate("C16", "anyu/unpack-files-fails", tn, fmt.Sprintf("err=%v %s", e2, pmsg), rc)
-			} else {
-				if _, ok := u2.(*dynamicpb.Message); !ok {
-					rep.Violate("C16", "anyu/unpack-files-not-dynamic", tn, fmt.Sprintf("got %T", u2), rc)
-				}
-				if !bytes.Equal(canonOf(u2), want) {
-					rep.Violate("C16", "anyu/unpack-files-differs", tn, "file-registry path differs from the message: "+firstDiff(canonOf(u2), want), rc)
-				}
-			}
-			// custom files registry with the file
-			pan, pmsg = safely(func() { u3, e3 = anyutil.Unpack(a, filesWith(d.ParentFile()), emptyTypes) })
-			if pan || e3 != nil {
-				rep.Violate("C16", "anyu/unpack-customfiles-fails", tn, fmt.Sprintf("err=%v %s", e3, pmsg), rc)
-			} else if !bytes.Equal(canonOf(u3), want) {
-				rep.Violate("C16", "anyu/unpack-customfiles-differs", tn, "custom file registry path differs", rc)
-			}
-			rep.Count("C16", "pack-unpack-roundtrips", 1)
-
-			// ---- hostile Any values / resolver combinations: error, never panic
-			hostile := []*anypb.Any{
-				{TypeUrl: "", Value: a.Value},
-				{TypeUrl: "/", Value: a.Value},
-				{TypeUrl: tn, Value: a.Value},                          // no slash
-				{TypeUrl: "type.googleapis.com/" + tn, Value: a.Value}, // host prefix: resolvable through the type registry
-				{TypeUrl: "/" + tn + ".nope", Value: a.Value},
-				{TypeUrl: "/no.such.Type", Value: a.Value},
-				{TypeUrl: "/" + tn, Value: append(append([]byte{}, a.Value...), 0xff)}, // corrupt tail
-				{TypeUrl: "/" + tn, Value: []byte{0x0a, 0xff, 0xff, 0xff, 0xff, 0x0f}},
-				{TypeUrl: "/" + tn, Value: []byte{0xc0, 0x3e, 0x80}},                   // unknown varint field, value truncated
-				{TypeUrl: "/" + tn, Value: []byte{0xc1, 0x3e, 1, 2, 3}},                // unknown fixed64 truncated
-				{TypeUrl: "/" + tn, Value: []byte{0xc2, 0x3e, 0x05, 1}},                // unknown bytes truncated
-				{TypeUrl: "/" + tn, Value: []byte{0xc3, 0x3e, 0xc2, 0x3e, 0x7f}},       // unknown group, unterminated
-				{TypeUrl: "/" + tn, Value: []byte{0xc5, 0x3e, 1}},                      // unknown fixed32 truncated
-				{TypeUrl: "/" + tn, Value: append(append([]byte{}, a.Value...), 0x80)}, // dangling tag byte
-				{TypeUrl: "//" + tn, Value: a.Value},
-				{TypeUrl: "/\x00\xff", Value: nil},
-				{TypeUrl: "/google.protobuf.Any", Value: a.Value},
-			}
-			// names of non-message descriptors: enums, services, fields, enum values, oneofs
-			f := d.ParentFile()
-			if f.Enums().Len() > 0 {
-				hostile = append(hostile, &anypb.Any{TypeUrl: "/" + string(f.Enums().Get(0).FullName()), Value: a.Value})
-				hostile = append(hostile, &anypb.Any{TypeUrl: "/" + string(f.Enums().Get(0).Values().Get(0).FullName()), Value: nil})
-			}
-			if f.Services().Len() > 0 {
-				hostile = append(hostile, &anypb.Any{TypeUrl: "/" + string(f.Services().Get(0).FullName()), Value: a.Value})
-				hostile = append(hostile, &anypb.Any{TypeUrl: "/" + string(f.Services().Get(0).Methods().Get(0).FullName()), Value: a.Value})
-			}
-			if d.Fields().Len() > 0 {
-				hostile = append(hostile, &anypb.Any{TypeUrl: "/" + string(d.Fields().Get(0).FullName()), Value: a.Value})
-			}
-			if d.Oneofs().Len() > 0 {
-				hostile = append(hostile, &anypb.Any{TypeUrl: "/" + string(d.Oneofs().Get(0).FullName()), Value: a.Value})
-			}
-			hostile = append(hostile, &anypb.Any{TypeUrl: "/google.protobuf.NullValue", Value: nil}, &anypb.Any{TypeUrl: "/google.protobuf.FieldDescriptorProto.Type", Value: []byte{1}})
-			type resolvers struct {
-				name string
-				f    protodesc.Resolver
-				t    protoregistry.MessageTypeResolver
-			}
-			rs := []resolvers{
-				{"default", nil, nil},
-				{"empty-types", nil, emptyTypes},
-				{"custom-files+empty-types", filesWith(f), emptyTypes},
-				{"empty-files+empty-types", new(protoregistry.Files), emptyTypes},
-			}
-			h := hostile[r.Intn(len(hostile))]
-			if i < len(hostile) {
-				h = hostile[i]
-			}
-			for _, rv := range rs {
-				var um proto.Message
-				var ue error
-				pan, pmsg = safely(func() { um, ue = anyutil.Unpack(h, rv.f, rv.t) })
-				rep.Count("C16", "hostile-unpacks", 1)
-				rep.Eval("C16", []byte("hostile|"+rv.name+"|"+h.TypeUrl+"|"+string(h.Value)), true)
-				if pan {
-					rep.Violate("C16", "anyu/unpack-panics", tn, fmt.Sprintf("Unpack(url=%q, resolvers=%s) panics: %s", h.TypeUrl, rv.name, pmsg), map[string]interface{}{"engine": "anyu", "type": tn, "index": i, "seed": *flagSeed, "url": h.TypeUrl, "resolvers": rv.name})
-				} else if ue == nil && um == nil {
-					rep.Violate("C16", "anyu/unpack-nil-nil", tn, fmt.Sprintf("Unpack(url=%q, %s) returned neither message nor error", h.TypeUrl, rv.name), rc)
-				}
-			}
 		}
 	}
 	if si == 0 {
